@@ -63,8 +63,8 @@ theorem drop_of_none {l : List Nat} {i : Nat} (h : l[i]? = none) : l.drop i = []
 
 theorem iterCount_step_inc (hb : c.bytesContiguous = true) (b : Bytes) :
     Bytes.iterCount c .integer (Bytes.incCount c .integer { b with index := b.index + 1 }) = Bytes.iterCount c .integer b + 1 := by
-  unfold Bytes.iterCount Bytes.currentCount Bytes.incCount
-  simp only [hb, if_true]
+  have _ := hb
+  unfold Bytes.iterCount Bytes.incCount
   cases hf : c.feats.format with
   | false => simp [notFormat_iterContig .integer hf]
   | true => cases c.iterContiguous .integer <;> simp
@@ -123,7 +123,9 @@ theorem tryParse8_exact (hc : Rel c) (k : Comp) (b : Bytes) :
     have h8 := peekBytes_some hpb
     split
     · simp only [stepBy_rel hc, bind, Except.bind]
-      exact ⟨_, _, rfl, rfl, by simp, fun _ => ⟨rfl, h8⟩⟩
+      obtain ⟨h1, h2⟩ := incCountFold_adv (c := c) k (List.range 8) (step_adv b 8 h8)
+        (by simp only [csum, List.length_range]; omega)
+      exact ⟨_, _, rfl, h1.slc, by simp, fun _ => ⟨h2, h8⟩⟩
     · exact ⟨none, b, rfl, rfl, fun _ => rfl, by simp⟩
 
 theorem u64Loop8_exact (hc : Rel c) (k : Comp) :
